@@ -64,7 +64,7 @@ theorem createFile_sub_slots (hup : DotSafe up) (env : Env) (henv : env.upper = 
     (f : Nat) :
     match checkForExistenceL up slots name (some false) 70000 with
     | .error e => FailsV (createFile env (f + 1) (.file (FileH.new (some c0) (some ed0))) path) d e
-    | .ok (.entry le) => ∃ h, Reads (createFile env (f + 1) (.file (FileH.new (some c0) (some ed0))) path) d h
+    | .ok (.entry _) => ∃ h, Reads (createFile env (f + 1) (.file (FileH.new (some c0) (some ed0))) path) d h
     | .ok (.alias a) =>
       match Names.validateLongName name with
       | .error e => FailsV (createFile env (f + 1) (.file (FileH.new (some c0) (some ed0))) path) d e
